@@ -249,6 +249,11 @@ func Prot(b string) world.Req {
 	return world.Req{Browser: b, Method: "GET", Path: "/app/prot", ForceForm: true, Tag: world.Tag{Kind: "prot"}}
 }
 
+// NotModified requests the application route that answers 304.
+func NotModified(b string) world.Req {
+	return world.Req{Browser: b, Method: "GET", Path: "/app/notmodified", ForceForm: true, Header: map[string]string{"If-None-Match": `"v1"`}, Tag: world.Tag{Kind: "notmod"}}
+}
+
 // Guard requests the route wrapped by lock.Middleware / confirm.Middleware only.
 func Guard(b string) world.Req {
 	return world.Req{Browser: b, Method: "GET", Path: "/app/guard", ForceForm: true, Tag: world.Tag{Kind: "guard"}}
